@@ -349,6 +349,19 @@ def op_exact(case, op):
             return False
     if name in ("bin", "bins", "mbin", "mbins") and op["name"] == "truediv" and op.get("rev"):
         return False
+    # anything that takes a square root (2-norms, |z| of complex numbers via hypot) is class T
+    if name in ("norm", "mnorm"):
+        if str(op["ord"]) == "2":
+            return False
+        flds = ([case["fields"][op["f"]]] if name == "norm"
+                else [case["fields"][i] for i in case["mfields"][op["a"]]["leaves"]])
+        if any(fd["dt"] == "c" for fd in flds):
+            return False
+    if name in ("un", "mun") and op["name"] == "abs":
+        flds = ([case["fields"][op["f"]]] if name == "un"
+                else [case["fields"][i] for i in case["mfields"][op["a"]]["leaves"]])
+        if any(fd["dt"] == "c" for fd in flds):
+            return False
     return True
 
 
